@@ -209,7 +209,13 @@ Excluded_F_C16_4(w, imp) ==
     LET t == Target(tree, DirOf(w), imp)
         As == NonRootPrefixes(DirOf(w)) \cup
               (IF sit = "file" /\ t = NotFound THEN NonRootPrefixes(mdir) ELSE {})
-    IN \E A \in As : DirExists(tree, Probe(A, imp.p)) /\ Probe(A, imp.p) # t
+    IN \E A \in As : /\ Probe(A, imp.p) # t
+                      \* (a directory without Go files in place of "not found" is an error all the same)
+                      /\ IF t = NotFound THEN Probe(A, imp.p) \in tree \/ (sit = "file" /\ Probe(A, imp.p) = mdir)
+                                         ELSE DirExists(tree, Probe(A, imp.p))
+                      \* (not when the answer is held by A or by a directory below A: the walk
+                      \* towards GOPATH/src finds the answer before it comes to Probe(A, path))
+                      /\ (t = NotFound \/ Len(A) > HomeLen(t))
 \* F-C16-5: a candidate directory that exists but holds no package (no Go files) comes
 \* before the answer
 Excluded_F_C16_5(w, imp) ==
